@@ -820,6 +820,12 @@ func (s *session) readDisconnected(oldConn net.Conn, err error) {
 		return true
 	})
 
+	// a session that cannot redial ends here: fire the close notification before waiting
+	// for the running handlers (as closeLocked does), one of them may be waiting for it
+	if status != statusActiveClosing && s.redialForClientLocked == nil {
+		s.notifyClosed()
+	}
+
 	s.graceCtxWait()
 
 	if status == statusActiveClosing {
